@@ -1319,7 +1319,9 @@ def check_C10(chk):
     no_partial_output(chk, "C10.d", CREATE_RUN, RUNNER_RUN, [WRITE_STDOUT])
     who_may_write(chk, "C10.d")
     exit_status(chk, "C10.e")
-    for r, n in (("C10.a", 10), ("C10.b", 7), ("C10.c", 2), ("C10.d", 5), ("C10.e", 2)):
+    import rules_io
+    rules_io.reader_outcomes(chk, "C10.e")
+    for r, n in (("C10.a", 10), ("C10.b", 7), ("C10.c", 2), ("C10.d", 5), ("C10.e", 6)):
         chk.floor(r, n)
 
 
